@@ -156,12 +156,16 @@ var engineAssumptions = append([]string{
 
 func eProp(id string, runs []eRun, outside []string) *Property {
 	p := &Property{ID: id, Assumptions: engineAssumptions, OutsideClaim: outside}
+	ticks := [2]int{2, 2}
+	if id == "C09" || id == "C10" {
+		ticks = [2]int{1, 2} // crash harnesses multiply every forward path by its crash classes
+	}
 	for _, r := range runs {
 		needs := r.needs
 		if needs == nil {
 			needs = []string{"plan completed", "plan failed"}
 		}
-		p.Runs = append(p.Runs, Run{Dir: "engine", Pkg: "internal/execute/sm", Fn: r.fn, P: [2]int{r.pq, r.pt}, Ticks: [2]int{2, 2},
+		p.Runs = append(p.Runs, Run{Dir: "engine", Pkg: "internal/execute/sm", Fn: r.fn, P: [2]int{r.pq, r.pt}, Ticks: ticks,
 			SwitchOn: []string{"yield:enter", "yield:exit"}, Needs: needs})
 	}
 	return p
